@@ -9,7 +9,7 @@ ID = "C12"
 LEVEL = "model_checking"
 TECHNIQUE = "breadth-first explicit-state search over write / write-same / sync histories through the real facade against a simulated conformant block target, SG_IO and iSCSI in lock-step, disk state de-duplicated, every state read back in full and compared with a dict reference model"
 RULE = ("events: write10/12/16 and writesame10/16 (incl. unmap, anchor, ndob) over LBAs {0,1,2^32-2,2^32-1 | 2^32, 2^40+3, 2^63+5, 2^64-2, 2^64-1 (16-byte forms)} x "
-        "transfer lengths {0,1,2} x payloads {A,B} plus one all-flags variant per command, synchronizecache10/16; BFS to depth 2 (quick) / 3 "
+        "transfer lengths {0,1,2} x payloads {A,B} plus one all-flags variant per command, WRITE SAME with block counts 0xFFFF / 0x10000 / 0x10003 / 0xFFFFFFFF, synchronizecache10/16; BFS to depth 2 (quick) / 3 "
         "(thorough) de-duplicating on disk content, per block size in {512, 4096}; each history is replayed from scratch through the facade on a "
         "fresh SG_IO device and a fresh iSCSI device. In every state every read form (read10/12/16, lengths 1..2, one all-flags variant) over every "
         "touched LBA and its neighbours, READ CAPACITY(10/16) and INQUIRY are compared with the model and across transports. states = distinct "
@@ -46,6 +46,10 @@ def events():
                     continue
                 ev.append((cmd, lba, nb, "A", ()))
         ev.append((cmd, 0, 2, "B", (("unmap", 1), ("anchor", 1), ("wrprotect", 3), ("group", 0x0A))))
+    ev.append(("writesame16", 1 << 33, 0x10000, "B", ()))
+    ev.append(("writesame16", (1 << 33) + 5, 0x10003, "A", (("unmap", 1),)))
+    ev.append(("writesame16", (1 << 33) - 2, 0xFFFFFFFF, "A", ()))
+    ev.append(("writesame10", 7, 0xFFFF, "B", ()))
     ev.append(("writesame16", 1, 2, "A", (("ndob", 1),)))
     ev.append(("writesame16", (1 << 40) + 3, 1, "B", (("ndob", 1), ("unmap", 1))))
     ev.append(("synchronizecache10", 0, 0, "", ()))
@@ -67,15 +71,35 @@ def block(p, bs, i=0):
     return bytes([(PAT[p] + i) & 0xFF]) * bs
 
 
+class Model(dict):
+    """lba -> block for small writes, plus extents (list of (start, n, block)) in write order; a later entry wins"""
+
+    def __init__(self):
+        dict.__init__(self)
+        self.log = []          # (start, n, block or None when stored per block in the dict)
+
+    def at(self, lba, bs):
+        for (start, n, blk) in reversed(self.log):
+            if start <= lba < start + n:
+                return blk if blk is not None else self[lba]
+        return bytes(bs)
+
+    def probes(self):
+        out = set()
+        for (start, n, blk) in self.log:
+            out.update((start - 1, start, start + 1, start + n // 2, start + n - 1, start + n))
+        return out
+
+
 def apply_model(model, ev, bs):
     cmd, lba, n, p, flags = ev
     if cmd.startswith("write1"):
         for i in range(n):
             model[lba + i] = block(p, bs, i)
+            model.log.append((lba + i, 1, block(p, bs, i)))
     elif cmd.startswith("writesame"):
         blk = bytes(bs) if dict(flags).get("ndob") else block(p, bs)
-        for i in range(n):
-            model[lba + i] = blk
+        model.log.append((lba, n, blk))
 
 
 def do_event(s, ev, bs):
@@ -93,14 +117,12 @@ def observe(s, model, bs, where, tr):
     """read everything back; returns (violations, observation tuple)"""
     out = []
     obs = []
-    lbas = set()
-    for a in model:
-        lbas.update((a - 1, a, a + 1))
+    lbas = set(model.probes())
     lbas.update((0, (1 << 32) - 1, 1 << 32))
     lbas = sorted(x for x in lbas if 0 <= x < BIG)
 
     def want(lba, n):
-        return b"".join(model.get(lba + i, bytes(bs)) for i in range(n))
+        return b"".join(model.at(lba + i, bs) for i in range(n))
 
     for lba in lbas:
         for cmd, lim in (("read10", 1 << 32), ("read12", 1 << 32), ("read16", BIG)):
@@ -144,7 +166,7 @@ def run_history(bs, hist, check_all=True):
     """replay hist on fresh rigs of both transports; returns (violations, canonical state, obs)"""
     install.ensure()
     out = []
-    model = {}
+    model = Model()
     rigs = [harness.Rig(tr, 0x00, blocksize=bs, nblocks=BIG) for tr in ("sgio", "iscsi")]
     try:
         fac = [r.facade(blocksize=bs) for r in rigs]
@@ -161,14 +183,14 @@ def run_history(bs, hist, check_all=True):
             v, o = observe(s, model, bs, where, r.transport)
             out += v
             observations.append(o)
-            disk = {k: v2 for k, v2 in r.target.disk.items() if v2 != bytes(bs)}
-            m2 = {k: v2 for k, v2 in model.items() if v2 != bytes(bs)}
-            if disk != m2:
-                bad = sorted(set(disk) ^ set(m2) | {k for k in disk if k in m2 and disk[k] != m2[k]})[:4]
-                out.append(("%s/disk_differs" % r.transport, "%s: target disk differs from the model at LBAs %r" % (where, [hex(b) for b in bad])))
+            probes = sorted(x for x in (set(model.probes()) | set(r.target.disk)) if 0 <= x < BIG)
+            bad = [x for x in probes if r.target.block_at(x) != model.at(x, bs)][:4]
+            if bad or len(r.target.extents) != sum(1 for (_, n, _) in model.log if n > 4096):
+                out.append(("%s/disk_differs" % r.transport, "%s: target medium differs from the model at LBAs %r (large extents on target: %r)"
+                            % (where, [hex(b) for b in bad], [(hex(a), hex(n)) for (_, a, n, _) in r.target.extents])))
         if observations[0] != observations[1]:
             out.append(("transports_differ", "%s: SG_IO and iSCSI observations differ" % where))
-        state = tuple(sorted((k, v2[0]) for k, v2 in model.items() if v2 != bytes(bs)))
+        state = tuple(sorted((x, model.at(x, bs)[0]) for x in model.probes() if 0 <= x < BIG and model.at(x, bs) != bytes(bs)))
         return out, state, observations[0]
     finally:
         for r in rigs:
